@@ -3572,7 +3572,12 @@ impl fmt::Display for Statement {
                 };
 
                 if let Some(action) = or {
-                    write!(f, "INSERT OR {action} INTO {table_name} ")?;
+                    write!(
+                        f,
+                        "INSERT OR {action}{int}{tbl} {table_name} ",
+                        int = if *into { " INTO" } else { "" },
+                        tbl = if *table { " TABLE" } else { "" },
+                    )?;
                 } else {
                     write!(
                         f,
